@@ -28,9 +28,9 @@ theorem still_step (cfg : Cfg) (s : State) (op : Op) (hs : Still op) (h : s.last
   cases op with
   | adv d => simp only [Still] at hs; subst hs; exact ⟨by simp [step], h⟩
   | store c ttl hint => exact ⟨rfl, h⟩
-  | ingest c e => obtain ⟨a, b, _, _⟩ := ingest_frame cfg s c e; exact ⟨a, b.trans h⟩
-  | announce c e p pid addr ttl hint =>
-    obtain ⟨a, b, _, _⟩ := announce_frame cfg s c e p pid addr ttl hint; exact ⟨a, b.trans h⟩
+  | ingest c e same => obtain ⟨a, b, _, _⟩ := ingest_frame cfg s c e same; exact ⟨a, b.trans h⟩
+  | announce c e same p pid addr ttl hint =>
+    obtain ⟨a, b, _, _⟩ := announce_frame cfg s c e same p pid addr ttl hint; exact ⟨a, b.trans h⟩
   | reannounce c ttl hint => obtain ⟨a, b, _, _⟩ := reannounce_frame cfg s c ttl hint; exact ⟨a, b.trans h⟩
   | lookup c => obtain ⟨a, b, _, _⟩ := lookup_frame cfg s c; exact ⟨a, b.trans h⟩
   | probe c => exact ⟨rfl, h⟩
